@@ -275,6 +275,9 @@ func runCheck(args []string) {
 				o.Status = "skipped-slow"
 				continue
 			}
+			if _, slow := base.Slow[o.Name]; slow && !*updateBaseline {
+				o.fewSolvers = true
+			}
 			run = append(run, o)
 		}
 	}
